@@ -20,17 +20,22 @@ class Harness:
         self.file, self.module, self.group, self.size, self.fn = file, module, group, size, fn
         self.props, self.tier, self.spin_violation, self.asserts = props, tier, spin_violation, asserts
         self.jobs = 16
+        self.submodule = "proofs"
 
     @property
     def full(self):
         mid = f"::{self.size}" if self.size else ""
-        return f"{self.module}::verif_hooks::proofs{mid}::{self.fn}"
+        return f"{self.module}::verif_hooks::{self.submodule}{mid}::{self.fn}"
 
     def obligation(self, pid):
         return f"{pid}.K.{self.file}.{self.fn}"
 
 
 def load_registry():
+    return _load_registry()
+
+
+def _load_registry():
     out = []
     for name in sorted(os.listdir(KANI_DIR)):
         if not name.endswith(".rs"):
